@@ -175,6 +175,12 @@ func (win Window) Print(segs ...Segment) (col int, row int) {
 				// characterWidth will cache the result
 				char.Width = win.Vx.characterWidth(char.Grapheme)
 			}
+			if col+char.Width > cols {
+				// the character doesn't fit in what is left
+				// of this row
+				row += 1
+				col = 0
+			}
 			cell := Cell{
 				Character: char,
 				Style:     seg.Style,
@@ -301,6 +307,12 @@ func (win Window) Wrap(segs ...Segment) (col int, row int) {
 					row += 1
 					col = 0
 					continue
+				}
+				if col+char.Width > cols {
+					// the character doesn't fit in what is
+					// left of this row
+					row += 1
+					col = 0
 				}
 				cell := Cell{
 					Character: char,
